@@ -223,7 +223,7 @@ impl<T: Socket + ?Sized> Worker<T> {
                             if window.is_full() {
                                 break;
                             }
-                        } else {
+                        } else if received_block_number != block_number || window.is_empty() {
                             window.empty()?;
                             self.send_packet(&Packet::Ack(block_number))?;
                         }
